@@ -61,8 +61,9 @@ def _(c):
 
 def _cfg():
     from beyond.config import config
-    config.update({"eop": {"folder": "/repo/tests/data/pole", "type": "all", "missing_policy": "pass"},
-                   "env": {"jpl": {"files": ["/repo/tests/data/jpl/de403_2000-2020.bsp", "/repo/tests/data/jpl/pck00010.tpc", "/repo/tests/data/jpl/gm_de431.tpc"]}}})
+    from contracts.eopcfg import use_eop
+    use_eop(real=True)
+    config.update({"env": {"jpl": {"files": ["/repo/tests/data/jpl/de403_2000-2020.bsp", "/repo/tests/data/jpl/pck00010.tpc", "/repo/tests/data/jpl/gm_de431.tpc"]}}})
 
 
 def _grid_series(tier, rng):
